@@ -1,48 +1,30 @@
 (** C07 — property theorems only (each closed by [exact]); see Proofs.v.
     [server_step] is the model of the REPAIRED GattServer (variant [V_fixed]); [server_step_v V_orig]
-    the code before the repairs. *)
+    the code before the first-round repairs. *)
 From Coq Require Import List NArith Arith.
 From Whad Require Import Lib.Bytes C07.Model C07.Proofs.
 Import ListNotations.
 Open Scope N_scope.
 
-(** No request, whatever its content, whatever the database (no well-formedness needed) and
-    whatever the user hooks return (any object), raise (including arbitrary exceptions) or update
-    (characteristic values, subscribed or not, with the notifications that entails in the middle
-    of the request), leaves the transmit lock held -- provided no GATT procedure lock is stuck and
-    the notification / indication hooks return or override (otherwise: C07_never_wedges_refuted). *)
+(** NEVER WEDGES.  No request, whatever its content, whatever the database (no well-formedness
+    needed) and whatever the user hooks return (any object), raise (HookReturn* or arbitrary
+    exceptions, also from the notification / indication hooks) or update (characteristic values,
+    subscribed or not, with the notifications that entails in the middle of the request), leaves the
+    transmit lock or a GATT procedure lock held.  ([proc_free]: no procedure lock is held -- true
+    of every fresh connection and, by this very theorem, of every reachable state.) *)
 Theorem C07_never_wedges :
   forall (st : state) (r : att_request) (hk : hook_oracle),
-    tx_locked st = false -> proc_free st = true -> notif_hooks_return hk = true ->
+    tx_locked st = false -> proc_free st = true ->
     tx_locked (fst (server_step st r hk)) = false /\ proc_free (fst (server_step st r hk)) = true.
 Proof. exact never_wedges. Qed.
 
-(** When the hooks of the request update no characteristic, nothing at all is needed. *)
-Theorem C07_never_wedges_no_updates :
-  forall (st : state) (r : att_request) (hk : hook_oracle),
-    tx_locked st = false -> h_acts hk = no_acts -> tx_locked (fst (server_step st r hk)) = false.
-Proof. exact never_wedges_no_updates. Qed.
-
-(** ... along every history of client PDUs, application writes, link-security changes,
-    disconnections and reconnections. *)
+(** ... along every history of client PDUs, application writes (whose notification hooks may
+    raise), link-security changes, disconnections and reconnections. *)
 Theorem C07_never_wedges_history :
   forall (evs : list event) (st : state),
-    tx_locked st = false -> proc_free st = true -> forallb ev_quiet evs = true ->
+    tx_locked st = false -> proc_free st = true ->
     tx_locked (run_state V_fixed st evs) = false /\ proc_free (run_state V_fixed st evs) = true.
 Proof. exact never_wedges_history. Qed.
-
-(** FULL STATEMENT of never_wedges (all hook behaviours); refuted: KNOWN-FINDING
-    notification-hook-exception-then-hook-update-wedges. *)
-Definition C07_never_wedges_statement : Prop :=
-  forall (evs : list event) (st : state),
-    wf_state st = true -> tx_locked st = false -> proc_free st = true ->
-    tx_locked (run_state V_fixed st evs) = false.
-
-Theorem C07_never_wedges_refuted :
-  exists st evs, wf_state st = true /\ tx_locked st = false /\ proc_free st = true
-    /\ snd (run V_fixed st evs) = [ [PWriteRsp]; []; [] ]
-    /\ tx_locked (run_state V_fixed st evs) = true.
-Proof. exact never_wedges_refuted. Qed.
 
 (** In an unlocked state the probe request of the harness (Read Request on handle 0) is answered by
     exactly one Error Response. *)
@@ -56,43 +38,20 @@ Theorem C07_hook_return_values_ignored :
   forall v st rq hk (r : hook_rets), handle v st rq (with_rets hk r) = handle v st rq hk.
 Proof. exact returns_ignored. Qed.
 
-(** Exactly one RESPONSE per request, at most one per command, one confirmation per indication
-    (the notifications a hook's characteristic update sends meanwhile are not responses) -- for
-    every state (no well-formedness of the database needed), every well-formed request and all hooks
-    that return, override, update characteristics or answer with a HookReturn* error, the 'written'
-    hook returning normally.  (Raising hooks and 'written' hooks that raise HookReturn*: _refuted.) *)
-Theorem C07_one_response_partial :
+(** ONE RESPONSE.  Exactly one response per request -- requests with an unknown opcode and known
+    requests whose parameters cannot be parsed included ([is_request]) --, at most one per command,
+    one confirmation per indication (the notifications a hook's characteristic update sends meanwhile
+    are not responses): for every state (no well-formedness of the database needed), every PDU and
+    ALL hook behaviours (return, override, HookReturn* errors, arbitrary exceptions, updates), for
+    every hook (read, write, written, subscribed, unsubscribed, notification, indication). *)
+Theorem C07_one_response :
   forall (st : state) (r : att_request) (hk : hook_oracle),
-    tx_locked st = false -> proc_free st = true -> notif_hooks_return hk = true ->
-    wf_request (mtu_of st) r = true ->
-    hooks_behave hk = true -> is_return (h_written hk) = true ->
+    tx_locked st = false -> proc_free st = true ->
     let rsp := filter is_rsp (snd (server_step st r hk)) in
     (is_request r = true -> length rsp = 1%nat)
     /\ (is_command r = true -> (length rsp <= 1)%nat)
     /\ (is_indication r = true -> rsp = [PConfirmation]).
 Proof. exact one_response. Qed.
-
-(** FULL STATEMENT of one_response (all hook behaviours, unknown opcodes counted as requests);
-    refuted by the three findings below. *)
-Definition C07_one_response_statement : Prop :=
-  forall (st : state) (r : att_request) (hk : hook_oracle),
-    wf_state st = true -> tx_locked st = false -> wf_request (mtu_of st) r = true -> wf_hooks hk = true ->
-    (is_request r = true \/ (exists o b, r = UnknownOp o b)) ->
-    length (filter is_rsp (snd (server_step st r hk))) = 1%nat.
-
-Theorem C07_one_response_raising_hook_refuted :
-  exists st r hk, wf_state st = true /\ wf_request 23 r = true /\ is_request r = true
-    /\ snd (server_step st r hk) = [] /\ tx_locked (fst (server_step st r hk)) = false.
-Proof. exact raising_hook_refuted. Qed.
-
-Theorem C07_one_response_written_hook_refuted :
-  exists st r hk, wf_state st = true /\ wf_request 23 r = true /\ hooks_behave hk = true
-    /\ snd (server_step st r hk) = [PWriteRsp; PError 18 4 5].
-Proof. exact written_hook_refuted. Qed.
-
-Theorem C07_one_response_unknown_opcode_refuted :
-  forall st op body, snd (server_step st (UnknownOp op body) no_hooks) = [].
-Proof. exact unknown_opcode_unanswered. Qed.
 
 (** Every PDU emitted while a request is handled fits ([pdu_fits]): a response in the MTU in force
     (>= 23 by [wf_state]), a notification / indication sent by a hook's update in the MTU of the GATT
@@ -119,20 +78,58 @@ Theorem C07_wf_invariant :
 Proof. exact step_wf. Qed.
 
 (** All of the above along EVERY session (sequence of client PDUs with arbitrary hook behaviour),
-    lifted by [fold_left]; the lock is free at the end when the notification hooks behaved. *)
+    lifted by [fold_left]; no lock is held at the end. *)
 Theorem C07_session :
   forall (s : session) (st : state),
     wf_state st = true -> inputs_ok st s ->
     every_step step_ok st s
     /\ wf_state (fold_left session_step s st) = true
-    /\ (tx_locked st = false -> proc_free st = true -> quiet_notif s ->
+    /\ (tx_locked st = false -> proc_free st = true ->
         tx_locked (fold_left session_step s st) = false /\ proc_free (fold_left session_step s st) = true).
 Proof. exact session_ok. Qed.
 
-(** The code before the repairs (V_orig), on a well-formed 11-attribute database: *)
+(** Regression witnesses of the repaired findings, on the 11-attribute demo database:
+    a raising read hook is answered with Unlikely Error and the lock released; *)
+Theorem C07_raising_hook_answered :
+  snd (server_step demo_state (Read 4) raising_read) = [PError 10 4 14]
+  /\ tx_locked (fst (server_step demo_state (Read 4) raising_read)) = false.
+Proof. exact raising_hook_answered. Qed.
+
+(** a 'written' hook raising HookReturnAuthentRequired yields the Write Response only; *)
+Theorem C07_written_hook_one_pdu :
+  snd (server_step demo_state (Write 4 [1]) written_authent) = [PWriteRsp]
+  /\ val_at (fst (server_step demo_state (Write 4 [1]) written_authent)) 4 = [1].
+Proof. exact written_hook_one_pdu. Qed.
+
+(** unknown request opcode: Request Not Supported; unknown command: nothing; known request without
+    parameters: Invalid PDU (in every state); *)
+Theorem C07_unknown_opcode_answered :
+  forall st body,
+    snd (server_step st (UnknownOp 32 body) no_hooks) = [PError 32 0 6]
+    /\ snd (server_step st (UnknownOp 96 body) no_hooks) = []
+    /\ snd (server_step st (UnknownOp 10 []) no_hooks) = [PError 10 0 4]
+    /\ snd (server_step st (ReadMultiple []) no_hooks) = [PError 14 0 4].
+Proof. exact unknown_opcode_answered. Qed.
+
+(** Prepare Write on a CCCD / descriptor / declaration is refused, on a value it is queued; *)
+Theorem C07_prepare_non_value_refused :
+  snd (server_step demo_state (PrepareWrite 7 0 [1; 0]) no_hooks) = [PError 22 7 6]
+  /\ snd (server_step demo_state (PrepareWrite 11 0 [1]) no_hooks) = [PError 22 11 3]
+  /\ snd (server_step demo_state (PrepareWrite 3 0 [1]) no_hooks) = [PError 22 3 3]
+  /\ snd (server_step demo_state (PrepareWrite 10 0 [1]) no_hooks) = [PPrepareWriteRsp 10 0 [1]].
+Proof. exact prepare_non_value_refused. Qed.
+
+(** a notification hook that raised, then a request whose read hook updates the subscribed
+    characteristic: notification inside the request, response, no lock held. *)
+Theorem C07_notif_hook_then_update_ok :
+  snd (run V_fixed demo_state wedge_history) = [ [PWriteRsp]; []; [PNotification 6 [2]; PReadRsp [104; 105]] ]
+  /\ tx_locked (run_state V_fixed demo_state wedge_history) = false
+  /\ proc_free (run_state V_fixed demo_state wedge_history) = true.
+Proof. exact notif_hook_then_update_ok. Qed.
+
+(** The code before the first-round repairs (V_orig), on the same database: *)
 Theorem C07_orig_wedges_refuted :
   wf_state demo_state = true
-  /\ tx_locked (fst (server_step_v V_orig demo_state (Read 4) raising_read)) = true
   /\ tx_locked (fst (server_step_v V_orig demo_state (FindByTypeValue 1 65535 10752 [104;105]) no_hooks)) = true
   /\ tx_locked (fst (server_step_v V_orig demo_state (ReadByGroupType 1 65535 10497) no_hooks)) = true.
 Proof. exact (conj demo_wf orig_wedges). Qed.
@@ -145,12 +142,13 @@ Theorem C07_orig_unanswered_refuted :
      ReadByType128 1 65535 [0;1;2;3;4;5;6;7;8;9;10;11;12;13;14;15]].
 Proof. exact orig_unanswered. Qed.
 
-(** Non-vacuity: a 13-step session on the demo database satisfies the hypotheses of [C07_session]
-    (the last request's read hook updates a subscribed characteristic and returns 600 bytes); its
-    answers are the expected ones. *)
+(** Non-vacuity: a 17-step session on the demo database satisfies the hypotheses of [C07_session]
+    (hooks that update a subscribed characteristic and return 600 bytes, raise, raise HookReturn*
+    from 'written'; an unknown request; a Prepare Write on a CCCD); its last answers are the expected
+    ones. *)
 Example C07_nonvacuous :
   wf_state demo_state = true /\ tx_locked demo_state = false /\ proc_free demo_state = true
-  /\ inputs_ok demo_state demo_session /\ quiet_notif demo_session
-  /\ nth 12 (snd (run V_fixed demo_state (map (fun x => EvReq (fst x) (snd x)) demo_session))) []
-     = [PNotification 6 [2]; PReadRsp [7; 7]].
+  /\ inputs_ok demo_state demo_session
+  /\ skipn 12 (snd (run V_fixed demo_state (map (fun x => EvReq (fst x) (snd x)) demo_session)))
+     = [ [PNotification 6 [2]; PReadRsp [7; 7]]; [PError 10 4 14]; [PWriteRsp]; [PError 32 0 6]; [PError 22 7 6] ].
 Proof. exact nonvacuous. Qed.
